@@ -110,12 +110,23 @@ type c16State struct {
 	prevDesc string
 }
 
+// c16Call runs the formatter; a panic of the code under test becomes an error result so that
+// the case is reported with its own arguments.
+func c16Call(f *c16Formatter, buf []byte, vi, flag int) (out []byte, err error) {
+	defer func() {
+		if r := recover(); r != nil {
+			out, err = nil, fmt.Errorf("formatter panicked: %v", r)
+		}
+	}()
+	return f.call(buf, vi, flag)
+}
+
 func c16Case(w *rt.W, st *c16State, f *c16Formatter, vi, flag int, prefix []byte, spare int) {
 	fail := func(key, got, want string) {
 		w.Fail(key+"-"+f.name, "append", rt.Args("formatter", f.name, "vi", vi, "flag", flag, "prefix", prefix, "spare", spare, "value", f.describe(vi, flag)), got, want,
 			"formatting into a caller buffer must return prefix ++ format(nil) and leave the caller's bytes alone")
 	}
-	refOut, err := f.call(nil, vi, flag)
+	refOut, err := c16Call(f, nil, vi, flag)
 	if err != nil {
 		fail("error", err.Error(), "nil error")
 		return
@@ -128,7 +139,7 @@ func c16Case(w *rt.W, st *c16State, f *c16Formatter, vi, flag int, prefix []byte
 		backing[i] = 0xEE
 	}
 	buf := backing[: len(prefix) : len(prefix)+spare]
-	out, err := f.call(buf, vi, flag)
+	out, err := c16Call(f, buf, vi, flag)
 	w.Eval(2)
 	if err != nil {
 		fail("error", err.Error(), "nil error")
@@ -169,7 +180,7 @@ func c16Case(w *rt.W, st *c16State, f *c16Formatter, vi, flag int, prefix []byte
 			backing[i] = '~'
 		}
 		st.prevOut = nil
-		again, err := f.call(nil, vi, flag)
+		again, err := c16Call(f, nil, vi, flag)
 		w.Eval(1)
 		if err != nil || !bytes.Equal(again, refCopy) {
 			fail("result-depends-on-earlier-returned-buffer", string(again), string(refCopy))
@@ -257,7 +268,7 @@ func runC16(c *rt.Ctx) {
 		emits := map[byte]bool{}
 		for vi := 0; vi < f.nValues; vi++ {
 			for flag := 0; flag < f.nFlags; flag++ {
-				o, _ := f.call(nil, vi, flag)
+				o, _ := c16Call(f, nil, vi, flag)
 				for _, b := range o {
 					emits[b] = true
 				}
@@ -274,7 +285,7 @@ func runC16(c *rt.Ctx) {
 			st := &c16State{}
 			for ji := w.Shard; ji < len(jobs); ji += w.NShards {
 				j := jobs[ji]
-				o, _ := f.call(nil, j.vi, j.flag)
+				o, _ := c16Call(f, nil, j.vi, j.flag)
 				need := len(o)
 				for _, p := range prefixes {
 					var spares []int
